@@ -71,6 +71,21 @@ def writeBufs (c : Nat) : List Buf → List Nat → Int → Option (List Buf)
       | [] => some (pb :: extend c ((off - pb.stop).toNat + b.length + 1) pb.stop b off)
       | _ :: _ => (writeBufs c rest b off).map (pb :: ·)
 
+/-- The rest of `writeAt` once `b`/`off` are trimmed and the head exists:
+`pb := p.head; if off >= p.tail.off { pb = p.tail }; for { … }`. -/
+def writeLoop (c : Nat) (start stop' : Int) (bufs0 : List Buf) (b1 : List Nat) (off1 : Int) : Pipe × Bool :=
+  match bufs0.getLast? with
+  | none => (⟨start, stop', bufs0⟩, false)   -- not reachable
+  | some tail =>
+    if off1 ≥ tail.off then
+      match writeBufs c [tail] b1 off1 with
+      | none => (⟨start, stop', bufs0⟩, true)
+      | some l => (⟨start, stop', bufs0.dropLast ++ l⟩, false)
+    else
+      match writeBufs c bufs0 b1 off1 with
+      | none => (⟨start, stop', bufs0⟩, true)
+      | some l => (⟨start, stop', l⟩, false)
+
 /-- `writeAt(b, off)`; the flag reports a panic (state as left by the Go code). -/
 def writeAt (c : Nat) (p : Pipe) (b : List Nat) (off : Int) : Pipe × Bool :=
   let e := off + b.length
@@ -80,17 +95,7 @@ def writeAt (c : Nat) (p : Pipe) (b : List Nat) (off : Int) : Pipe × Bool :=
     let b1 := if off < p.start then b.drop (p.start - off).toNat else b
     let off1 := if off < p.start then p.start else off
     let bufs0 := if p.bufs.isEmpty then [newBuf c p.start] else p.bufs
-    match bufs0.getLast? with
-    | none => (⟨p.start, stop', bufs0⟩, false)   -- not reachable
-    | some tail =>
-      if off1 ≥ tail.off then
-        match writeBufs c [tail] b1 off1 with
-        | none => (⟨p.start, stop', bufs0⟩, true)
-        | some l => (⟨p.start, stop', bufs0.dropLast ++ l⟩, false)
-      else
-        match writeBufs c bufs0 b1 off1 with
-        | none => (⟨p.start, stop', bufs0⟩, true)
-        | some l => (⟨p.start, stop', l⟩, false)
+    writeLoop c p.start stop' bufs0 b1 off1
 
 /-- The loop of `read`: the slices handed to `f`, or `none` on a panic. -/
 def readBufs : List Buf → Int → Int → Option (List (List Nat))
